@@ -81,7 +81,7 @@ class Tracer:
         node.handle_event = handle_event
 
     def _open(self, inp, node, idx):
-        seg = dict(inp=inp, outs=[], pre=self.snapshot(node, idx))
+        seg = dict(inp=inp, outs=[], pre=self.snapshot(node, idx), node=idx)
         self.segs.append(seg)
         self.cur = seg
         return seg
@@ -90,6 +90,7 @@ class Tracer:
         seg["y"] = y
         post = self.snapshot(node, idx)
         seg["obs"] = None if post == seg.pop("pre") else post
+        seg.pop("node", None)
         self.cur = None
 
     def _traced(self, orig, node, idx, event):
@@ -357,9 +358,264 @@ def nontrivial_pb(c, o):
     return c["nb"] >= 1 and len(ks) != len(set(ks))
 
 
+
+# --------------------------------------------------------------------------- chain replication
+CH_IMPORTS = "From HS Require Import Base.Prelude C17.Model C17.Chain."
+CH_TYPE = "(nat * bool * list Z * list Z) * list cseg * final_obs"
+
+
+def gen_chain(rng):
+    n = rng.choice([2, 2, 3, 3, 4])
+    craq = rng.random() < 0.6
+    nkeys = rng.choice([1, 1, 2, 3])
+    ops = []
+    t = 0
+    for i in range(rng.randint(1, 8)):
+        t += rng.choice([0, 500, 1000, 1000, 3000, 8000])
+        r = rng.random()
+        if r < 0.55:
+            ops.append([t, "W", 0, rng.randrange(nkeys), 100 + i, rng.random() < 0.9])
+        elif r < 0.93:
+            node = rng.choice([n - 1, rng.randrange(n)])
+            ops.append([t, "R", node, rng.randrange(nkeys), 100 + i, True])   # (a forwarded read is identified by its reply future)
+        elif r < 0.97:
+            ops.append([t, "W", rng.randrange(n), rng.randrange(nkeys), 100 + i, True])      # Write to a non-head node
+        else:
+            ops.append([t, "O", rng.randrange(n), 0, 100 + i, False])
+    same = rng.random() < 0.5
+    wl = rng.choice([1000, 2000, 3000])
+    return dict(n=n, craq=craq, ops=ops,
+                wlat=[wl if same else rng.choice([1000, 2000, 3000, 5000]) for _ in range(n)],
+                rlat=[rng.choice([500, 1500]) for _ in range(n)],
+                delays=[rng.choice(DELAYS) for _ in range(rng.randint(1, 12))])
+
+
+def impl_chain(c):
+    from happysimulator import Event, Instant, Network, SimFuture, Simulation
+    from happysimulator.components.network.link import NetworkLink
+    from happysimulator.components.replication.chain_replication import build_chain
+    from hsverif.util import run_bounded
+
+    n = c["n"]
+    net = Network(name="net")
+    stores = []
+
+    def factory(name):
+        i = len(stores)
+        st = _logged_store(name, c["wlat"][i], c["rlat"][i])
+        stores.append(st)
+        return st
+
+    nodes = build_chain([f"n{i}" for i in range(n)], net, factory, craq_enabled=c["craq"])
+    sent_log = []
+    lat = _scripted_latency(c["delays"], sent_log)
+    for a in nodes:
+        for b in nodes:
+            if a is not b:
+                net.add_link(a, b, NetworkLink(name=f"l{a.name}{b.name}", latency=lat))
+    rid_of = {}          # id(reply_future) -> (rid, future)
+    acked, reads = [], []
+    seen_pending = {}
+
+    def describe_in(node, idx, ev):
+        md = ev.context.get("metadata", {})
+        et = ev.event_type
+        if et == "Write":
+            return ["W", md["wid"], kid(md["key"]), md["value"], md.get("reply_future") is not None]
+        if et == "Read":
+            rf = md.get("reply_future")
+            if "destination" in md:          # forwarded by a CRAQ node
+                rid = rid_of[id(rf)][0] if rf is not None else md.get("wid", -1)
+                return ["FRd", rid, kid(md["key"]), rf is not None]
+            return ["Rd", md["wid"], kid(md["key"]), rf is not None]
+        if et == "Propagate":
+            return ["Prop", int(md["destination"][1:]), kid(md["key"]), md["value"], md["seq"]]
+        if et == "WriteAck":
+            return ["Ack", kid(md["key"]), md["seq"]]
+        if et == "CommitNotify":
+            return ["Com", int(md["destination"][1:]), kid(md["key"]), md["seq"]]
+        return ["O"]
+
+    def describe_out(node, idx, ev):
+        return ["Send", describe_in(node, idx, ev)]
+
+    def snapshot(node, idx):
+        st = node.stats
+        for sq, f in node._pending_writes.items():
+            if id(f) not in seen_pending:
+                seen_pending[id(f)] = f
+                f._add_settle_callback(lambda sf, sq=sq: tr.emit(["Res", sq]))
+        return [store_items(node.store),
+                [node._next_seq, st.writes_received, st.propagations_sent, st.propagations_received, st.acks_sent, st.reads_served]
+                + [-1] + sorted(kid(k) for k in node.dirty_keys) + [-1] + list(node._pending_writes.keys())]
+
+    tr = Tracer(describe_in, describe_out, snapshot)
+    start_len = {}       # rid -> number of puts completed at the serving node when its _handle_read began
+    orig_open = tr._open
+
+    def _open(inp, node, idx):
+        if inp[0] == "S" and inp[2][0] in ("Rd", "FRd"):
+            start_len[inp[2][1]] = len(stores[idx].put_log)
+        return orig_open(inp, node, idx)
+
+    tr._open = _open
+    for i, nd in enumerate(nodes):
+        tr.wrap(nd, i)
+    sim = Simulation(start_time=Instant.Epoch, entities=[*nodes, net, *stores])
+
+    def logs():
+        return [[(kid(k), v) for k, v in s.put_log] for s in stores]
+
+    for (t, kind, node, key, wid, rf) in c["ops"]:
+        md = {"key": f"k{key}", "wid": wid}
+        if kind == "W":
+            md["value"] = wid
+        if rf:
+            f = SimFuture()
+            md["reply_future"] = f
+            rid_of[id(f)] = (wid, f)
+            if kind == "W":
+                def on_w(sf, wid=wid, key=key, node=node):
+                    v = sf._value
+                    if v.get("status") == "ok":
+                        tr.emit(["Reply", wid, v.get("seq", -1)])
+                    else:
+                        tr.emit(["ReplyErr", wid])
+                    acked.append(dict(wid=wid, key=key, node=node, value=v, logs=logs()))
+                f._add_settle_callback(on_w)
+            else:
+                def on_r(sf, wid=wid, key=key, node=node):
+                    v = sf._value
+                    tr.emit(["RdReply", wid, v.get("value")])
+                    served_by = tr.cur["node"] if tr.cur else -1
+                    reads.append(dict(rid=wid, node=node, served_by=served_by, key=key, value=v.get("value"), logs=logs(),
+                                      start_len=start_len.get(wid, 0),
+                                      dirty=[sorted(kid(k) for k in nd.dirty_keys) for nd in nodes]))
+                f._add_settle_callback(on_r)
+        et = {"W": "Write", "R": "Read", "O": "Bogus"}[kind]
+        sim.schedule(Event(time=Instant.from_seconds(t / US), event_type=et, target=nodes[node], context={"metadata": md}))
+    _, verdict = run_bounded(sim, wall_s=20.0)
+    final = [[tr.snapshot(nd, i), logs()[i]] for i, nd in enumerate(nodes)]
+    return dict(segs=tr.segs, final=final, verdict=verdict, replies=acked, reads=reads, sent=len(sent_log),
+                open_procs=sum(1 for s in tr.segs if s["inp"][0] == "S") - sum(1 for s in tr.segs if s["y"][0] == "X"))
+
+
+def ch_msg_term(m):
+    k = m[0]
+    if k == "W":
+        return Ctor("CWrite", m[1], m[2], m[3], m[4])
+    if k == "Rd":
+        return Ctor("CRead", m[1], m[2], m[3])
+    if k == "FRd":
+        return Ctor("CFwdRead", m[1], m[2], m[3])
+    if k == "Prop":
+        return Ctor("CProp", m[1], m[2], m[3], m[4])
+    if k == "Ack":
+        return Ctor("CAck", m[1], m[2])
+    if k == "Com":
+        return Ctor("CCommit", m[1], m[2], m[3])
+    return Ctor("COther")
+
+
+def ch_out_term(o):
+    if o[0] == "Send":
+        return Ctor("COSend", ch_msg_term(o[1]))
+    if o[0] == "Res":
+        return Ctor("COResolve", o[1])
+    if o[0] == "Reply":
+        return Ctor("COReply", o[1], o[2])
+    if o[0] == "ReplyErr":
+        return Ctor("COReplyErr", o[1])
+    if o[0] == "RdReply":
+        return Ctor("COReadReply", o[1], None if o[2] is None else SomeV(o[2]))
+    raise ValueError(o)
+
+
+def encode_chain(c, o):
+    cfg = (Nat(c["n"]), c["craq"], c["wlat"], c["rlat"])
+    segs = []
+    for s in o["segs"]:
+        i = s["inp"]
+        inp = Ctor("CStart", i[1], ch_msg_term(i[2])) if i[0] == "S" else Ctor("CResume", i[1])
+        segs.append((inp, [ch_out_term(x) for x in s["outs"]], yld_term(s["y"]), obs_opt_term(s["obs"])))
+    final = [(obs_term(f[0]), [tuple(x) for x in f[1]]) for f in o["final"]]
+    delivered = sum(1 for s in o["segs"] if s["inp"][0] == "S" and s["inp"][2][0] in ("Prop", "Ack", "Com", "FRd"))
+    return term((cfg, segs, (final, o["sent"] - delivered, o["open_procs"])))
+
+
+def oracle_chain(c, o):
+    out = []
+    n = c["n"]
+    if o["verdict"] != "ok":
+        return [dict(clause="simulation terminates", verdict=o["verdict"])]
+    writes = {op[4]: op for op in c["ops"] if op[1] == "W" and op[2] == 0}
+    for r in o["replies"]:
+        if r["node"] != 0:
+            if r["value"].get("status") != "error":
+                out.append(dict(clause="a Write sent to a non-head node is rejected", reply=r["value"]))
+            continue
+        has = [(r["key"], r["wid"]) in [tuple(x) for x in lg] for lg in r["logs"]]
+        if r["value"].get("status") != "ok" or not all(has):
+            out.append(dict(clause="chain: an acknowledged write is applied at every node of the chain", wid=r["wid"], applied=has, reply=r["value"]))
+    acked = {r["wid"] for r in o["replies"]}
+    for wid, op in writes.items():
+        if op[5] and wid not in acked:
+            out.append(dict(clause="every write is eventually acknowledged once all messages are delivered", wid=wid))
+    for r in o["reads"]:
+        tail_log = [tuple(x) for x in r["logs"][n - 1]]
+        committed = (r["value"] is None and True) or (r["key"], r["value"]) in tail_log
+        if r["served_by"] == n - 1:
+            if not committed:
+                out.append(dict(clause="chain: a read served by the tail returns a value applied at the tail", rid=r["rid"], value=r["value"]))
+            elif r["value"] is not None and [e for e in tail_log if e[0] == r["key"]][-1][1] != r["value"]:
+                out.append(dict(clause="chain: a read served by the tail returns the tail's latest value", rid=r["rid"], value=r["value"]))
+        elif c["craq"] and not committed:
+            earlier = any(w < r["value"] and op[3] == r["key"] for w, op in writes.items())
+            own = [tuple(x) for x in r["logs"][r["served_by"]]]
+            late = (r["key"], r["value"]) not in own[:r["start_len"]]      # applied after the dirty check
+            if late:
+                out.append(dict(clause="chain: a read never returns a value not yet committed at the tail",
+                                mechanism="craq-check-then-read", rid=r["rid"], served_by=r["served_by"], value=r["value"], tail_log=tail_log,
+                                what="CRAQ: _handle_read tests the dirty mark before store.get; a write applied during the read latency is returned although it is not committed at the tail"))
+                continue
+            out.append(dict(clause="chain: a read never returns a value not yet committed at the tail",
+                            mechanism="craq-dirty-key-set" if earlier else "craq-uncommitted-other", rid=r["rid"], served_by=r["served_by"], value=r["value"], tail_log=tail_log,
+                            what="CRAQ: dirty marks are a set of keys, not versions; the commit/ack of an earlier write to the key clears the mark while a later write is still uncommitted, so a non-tail node serves the uncommitted value as clean"))
+    fin = o["final"]
+    stores = [dict(tuple(x) for x in f[0][0]) for f in fin]
+    logs = [[tuple(x) for x in f[1]] for f in fin]
+    for b in range(1, n):
+        if stores[b] != stores[0]:
+            keys = sorted(k for k in set(stores[0]) | set(stores[b]) if stores[0].get(k) != stores[b].get(k))
+            reordered = sorted(logs[b]) == sorted(logs[0]) and all(
+                [e for e in logs[b] if e[0] == k] != [e for e in logs[0] if e[0] == k] for k in keys)
+            out.append(dict(clause="replicas converge once writes stop and all messages are delivered",
+                            mechanism="chain-reordered-same-key" if reordered else "chain-diverged-other",
+                            node=b, keys=keys, head=stores[0], replica=stores[b],
+                            what="chain: two Propagate messages for one key overtake each other on a link; the downstream node applies in arrival order and keeps the older value"))
+            break
+    return out
+
+
+def attribute_chain(c, o, f):
+    if f.get("mechanism") == "chain-reordered-same-key":
+        return "C17-chain-reorder-diverge"
+    if f.get("mechanism") == "craq-dirty-key-set":
+        return "C17-craq-dirty-set"
+    if f.get("mechanism") == "craq-check-then-read":
+        return "C17-craq-check-then-read"
+    return None
+
+
+def nontrivial_chain(c, o):
+    ks = [op[3] for op in c["ops"] if op[1] == "W" and op[2] == 0]
+    return len(ks) != len(set(ks))
+
 FAMILIES = [
     Family("pb", PB_IMPORTS, "ok_pb", PB_TYPE, gen_pb, impl_pb, encode_pb, oracle_pb, nontrivial_pb, attribute_pb,
            parallel=True, describe=lambda c: f"{c['mode']},nb={c['nb']}"),
+    Family("chain", CH_IMPORTS, "ok_chain", CH_TYPE, gen_chain, impl_chain, encode_chain, oracle_chain, nontrivial_chain, attribute_chain,
+           parallel=True, describe=lambda c: f"n={c['n']},craq={c['craq']}"),
 ]
 
 TRUSTED = [
@@ -385,8 +641,8 @@ class _Sharded:
 
 
 def run(ctx):
-    ctx.prove(["C17/Model.v", "C17/PBProofs.v", "C17/PBConv.v", "C17/Props.v"], allowed_axioms=(), trusted_base=TRUSTED)
-    n = ctx.n(240, 4000)
+    ctx.prove(["C17/Model.v", "C17/PBProofs.v", "C17/PBConv.v", "C17/Chain.v", "C17/ChainProofs.v", "C17/ChainConv.v", "C17/Props.v"], allowed_axioms=(), trusted_base=TRUSTED)
+    n = ctx.n(100, 1500)
     sctx = _Sharded(ctx)
     stats = [run_family(sctx, fam, n) for fam in FAMILIES]
     merge_stats(ctx, stats, "random client schedules over 1-3 keys with repeated keys, per-message scripted link delays (messages overtake each other), all modes, 0-3 backups; non-trivial = some key written twice with >= 1 replica; distinct by JSON of the input")
